@@ -38,13 +38,27 @@ Lemma naming_covered_ok : naming_covered = true.
 Proof. vm_compute. reflexivity. Qed.
 
 (* ---------------------------------------------------------------- composites *)
+(* events agree up to the VALUE of their numeric operands (same IEEE result for every run-time input) *)
+Definition params_equiv (ps ps' : list (pkind * fexp)) : Prop :=
+  Forall2 (fun p p' => fst p = fst p' /\ forall rho, feval rho (snd p) = feval rho (snd p')) ps ps'.
+Definition event_equiv (e e' : event) : Prop :=
+  e.(ev_ext) = e'.(ev_ext) /\ e.(ev_op) = e'.(ev_op) /\ e.(ev_qs) = e'.(ev_qs) /\ params_equiv e.(ev_ps) e'.(ev_ps).
+Definition events_equiv : list event -> list event -> Prop := Forall2 event_equiv.
+
 Definition composite_ok (q0 q1 : qid) (a0 a1 : fexp) (g : fn) : Prop :=
   match g.(f_bind), is_functional g.(f_mod), doc_composite g.(f_mod) g.(f_name) q0 q1 a0 a1 with
-  | BGuppy _, None, Some (vs, v, evs) => norm_run (run_call gen_tables g.(f_mod) g.(f_name) vs) = Ok (v, vs, evs)
+  | BGuppy _, None, Some (vs, v, evs) =>
+      match run_call gen_tables g.(f_mod) g.(f_name) vs with
+      | Ok (v', vs', evs') => v' = v /\ vs' = vs /\ events_equiv evs' evs
+      | Err _ => False end
   | _, _, _ => True
   end.
+Ltac solve_equiv :=
+  vm_compute; try exact I; repeat split; try reflexivity;
+  repeat (first [apply Forall2_nil | apply Forall2_cons]; repeat split; try reflexivity;
+          try (intros rho; vm_compute; reflexivity)).
 Lemma composites_ok : forall q0 q1 a0 a1, Forall (composite_ok q0 q1 a0 a1) gen_fns.
-Proof. intros. unfold gen_fns. each_entry. Qed.
+Proof. intros. unfold gen_fns. repeat (apply Forall_cons; [ solve_equiv | ]). apply Forall_nil. Qed.
 
 (* which Guppy-bodied functions of the two gate modules have a documented expansion (the rest are listed) *)
 Definition composite_names : list (string * string) :=
@@ -90,12 +104,12 @@ Fixpoint meas_bits (start : nat) (qs : list qid) : list value :=
 
 (* one iteration, for an arbitrary qubit and an arbitrary prefix of events (computed symbolically) *)
 Lemma measure_step : forall q pre,
-  call_with gen_tables (exec_stmts gen_tables 38) "quantum" "measure" [EVar "%elem"] [VQ q] [("%elem", VQ q)] pre
+  call_with gen_tables (exec_stmts gen_tables 37) "quantum" "measure" [EVar "%elem"] [VQ q] [("%elem", VQ q)] pre
   = Ok (VBit (BMeas (List.length pre)), [("%elem", VQ q)], app pre [mkEv "tket.quantum" "MeasureFree" [q] []]).
 Proof. intros. vm_compute. reflexivity. Qed.
 
 Lemma measure_loop : forall qs pre,
-  map_loop (fun v evs => call_with gen_tables (exec_stmts gen_tables 38) "quantum" "measure" [EVar "%elem"] [v] [("%elem", v)] evs)
+  map_loop (fun v evs => call_with gen_tables (exec_stmts gen_tables 37) "quantum" "measure" [EVar "%elem"] [v] [("%elem", v)] evs)
            (map VQ qs) pre
   = Ok (meas_bits (List.length pre) qs, app pre (seq_events "tket.quantum" "MeasureFree" qs)).
 Proof.
@@ -106,8 +120,16 @@ Proof.
     rewrite <- app_assoc. reflexivity.
 Qed.
 
-Lemma discard_step : forall q pre en,
-  exec_stmts gen_tables 37 (eset en "q" (VQ q)) pre [SExpr (ECall "quantum" "discard" [EVar "q"])]
-  = Ok (VUnit, eset en "q" (VQ q), app pre [mkEv "tket.quantum" "QFree" [q] []]).
+Lemma measure_array_any_length : forall qs,
+  run_call gen_tables "quantum" "measure_array" [qarr qs]
+  = Ok (VArr (meas_bits 0 qs), [qarr qs], seq_events "tket.quantum" "MeasureFree" qs).
 Proof.
-Abort.
+  intros qs. unfold run_call, FUEL.
+  change (eval_expr gen_tables 40 (combine (firstn (List.length [qarr qs]) argnames) [qarr qs]) []
+            (ECall "quantum" "measure_array" (map EVar (firstn (List.length [qarr qs]) argnames))))
+    with (match map_loop (fun v evs => call_with gen_tables (exec_stmts gen_tables 37) "quantum" "measure" [EVar "%elem"] [v] [("%elem", v)] evs)
+                         (map VQ qs) [] with
+          | Err m' => Err m'
+          | Ok (ys, evs') => Ok (VArr ys, [("%0", qarr qs)], evs') end).
+  rewrite measure_loop. reflexivity.
+Qed.
